@@ -1680,7 +1680,11 @@ impl<'a, K: Key + 'static, V: Value + 'static> CursorTree<'a, K, V> {
         if self.freed.is_empty() {
             return;
         }
+        #[cfg(redb_verif)]
+        crate::verif::pause("F.drain");
         let mut master_free_list = self.master_free_list.lock().unwrap();
+        #[cfg(redb_verif)]
+        crate::verif::pause("F.drain.locked");
         for page in self.freed.drain(..) {
             if !self
                 .page_allocator
